@@ -115,6 +115,23 @@ def allformat_read_campaign(ctx, stride=1, nops=30, channels=(1, 2, 3), route_sk
         tests.append((name, f, ch, F, info, R.test_phase(rng, f, ch, F, info["filehex"], nops)))
         ctx.distinct.add("fmt:" + f.name)
     out2 = ctx.batch([(n, t) for (n, f, ch, F, info, t) in tests])
+    # THE PREDICATE: Sf.Abs.check (lean/SfModel/Abs.lean) judges every transcript; the Python checker runs beside it as a cross-check
+    from . import abslean
+    judge = abslean.Judge(ctx)
+    starts = {}
+    for (name, f, ch, F, info, t) in tests:
+        starts[name] = abslean.add_read_test(judge, name, t, out2.get(name, []), ch, F, info["ref"], info.get("seekable", True), R.raw_bw(f, ch))
+    wnames = {}
+    for (name, script), (f, ch, n) in zip(ws, jobs):
+        if abslean.add_write_phase(judge, "W:" + name, script, out.get(name, []), ch) is not None:
+            wnames[name] = (f, ch, script)
+    verdicts = judge.run()
+    for name, (f, ch, script) in wnames.items():
+        v = verdicts["W:" + name]
+        stats["write_phase_lines"] += v.n
+        for fail in v.fails[:2]:
+            line, text, cat = abslean.describe(fail, 1, script.strip().split("\n"))
+            findings.append(Finding("pred", name, script, line, text, cat, f, ch))
     if tests:
         t0 = tests[len(tests) // 2]
         ctx.notes["allformat_example"] = {"name": t0[0], "frames": t0[3], "script": t0[5][-900:], "implementation_transcript_tail": out2.get(t0[0], [])[-4:]}
@@ -123,8 +140,21 @@ def allformat_read_campaign(ctx, stride=1, nops=30, channels=(1, 2, 3), route_sk
         stats["ops"] += nops
         ref = {ty: (info["ref"][ty] + ["?"] * (F * ch))[:F * ch] for ty in R.TYS}
         probs = R.check_test_phase(t, out2.get(name, []), ch, F, ref, info.get("seekable", True), bw=R.raw_bw(f, ch), filehex=info.get("filehex"))
+        v = verdicts[name]
+        sl = t.strip().split("\n")
+        lean = [abslean.describe(fail, starts[name], sl) for fail in v.fails]
+        for (k, text, cat) in lean[:3]:
+            py = [p[1] for p in probs if p[0] == k]
+            findings.append(Finding("pred", name, t, k, text + (" | python predicate: " + py[0] if py else ""), cat, f, ch))
         for (k, text, cat) in probs[:3]:
-            findings.append(Finding("pred" if cat != "crash" else "crash", name, t, k, text, cat, f, ch))
+            if cat == "crash":
+                findings.append(Finding("crash", name, t, k, text, cat, f, ch))
+        if not abslean.agree(v.fails, probs, starts[name]):
+            judge.disagreement(name, [(starts[name] + k, tag, tx) for (k, tag, tx) in v.fails[:3]], [(k, cat, tx[:160]) for (k, tx, cat) in probs[:3]])
+            # the cross-check may add to the Lean verdict, never take away from it
+            for (k, text, cat) in probs[:3]:
+                if cat != "crash" and not any(l[0] == k for l in lean):
+                    findings.append(Finding("pred", name, t, k, "python predicate only (Sf.Abs.check accepted this line): " + text, cat, f, ch))
     return findings, stats
 
 
